@@ -82,6 +82,15 @@ Theorem C19_req_counter_locked : all_locked = true.
 Proof. exact all_locked_spec. Qed.
 Print Assumptions C19_req_counter_locked.
 
+(** the key under which a session's subscriptions are filed is a fresh uuid
+    (ServeNostrStart: [reqID := uuid.NewString(); ctx = setRequestID(ctx, reqID)]
+    and nothing else beside the dispatches), so that a history of the
+    implementation is a well-formed history of the model: a key is live at
+    most once at a time, whatever the clients send *)
+Theorem C19_session_key_fresh : session_key_fresh = true.
+Proof. exact session_key_fresh_spec. Qed.
+Print Assumptions C19_session_key_fresh.
+
 (** the hypotheses are satisfiable on a non-trivial history *)
 Example C19_example :
   wf ex_hist /\ wf (ex_hist ++ [End 2]) /\
